@@ -13,7 +13,7 @@ PROPERTY = "C03"
 LEVEL = "exploration"
 NEED_EXT = True
 REQUIRED = ["refit.outputs", "refit.state", "same_seed.outputs", "global_seed_independence",
-            "refit.after_set_params"]
+            "refit.after_set_params", "refit.after_failed_fit", "refit.frames"]
 RULE = ("fittable registered classes (23) x configurations x training-set pairs (A, B) differing in n, d, label set / "
         "vocabulary / categorical columns x {fit A, [query], fit B, fit A} x 3 seeds (thorough 12); thread-parallel "
         "configurations included; non-trivial = A and B differ in shape or label set; distinct = distinct (class, "
@@ -128,15 +128,56 @@ def run_case(case, ctx):
     for vi in range(len(spec.variants)):
         A = spec.data(numpy.random.RandomState(sub + 1))
         B = spec.data_b(numpy.random.RandomState(sub + 2))
-        for hist in (("A", "B"), ("A", "q", "B"), ("A", "B", "A"), ("B", "q", "A")):
+        # F = a fit that fails (an invalid-input class of C02 the estimator refuses), between two good ones
+        from vrt.props.c02 import invalid_datasets
+        try:
+            bads = invalid_datasets(spec, spec.data(numpy.random.RandomState(sub + 1)))
+        except Exception:
+            bads = []
+        def group(label):
+            return "w" if "weights" in label else ("y" if label in (
+                "length-mismatch", "nan-in-y", "y-none", "five-labels", "single-label") else "X")
+
+        Fs = {}
+        for g in ("X", "y", "w"):
+            members = [b for b in bads if group(b[0]) == g]
+            for j in range(len(members)):
+                label, Dbad = members[(sub + vi + j) % len(members)]
+                try:
+                    probe = spec.make(vi)
+                    numpy.random.seed(sub + 17)
+                    spec.fit(probe, _copy(Dbad))
+                except Exception:
+                    Fs[g] = (label, Dbad)
+                    break
+        hists = [("A", "B"), ("A", "q", "B"), ("A", "B", "A"), ("B", "q", "A")]
+        hists += [("A", "F" + g, "B") for g in sorted(Fs)] + [("F" + g, "q", "A") for g in sorted(Fs)[:1]]
+        if not Fs:
+            ctx.excluded("no invalid-input class is refused by this configuration")
+        for hist in hists:
+            F = next((Fs[h[1]] for h in hist if h[0] == "F"), None)
+            hist = tuple("F" if h[0] == "F" else h for h in hist)
             cfg = {"class": spec.name, "variant": vi, "history": "".join(hist), "sub": sub}
             sets = {"A": A, "B": B}
+            if "F" in hist:
+                cfg["failing_fit"] = F[0]
             last = [h for h in hist if h != "q"][-1]
             e = spec.make(vi)
             try:
                 for h in hist:
                     if h == "q":
-                        spec.outputs(e, spec.query(numpy.random.RandomState(9), sets[cur]))
+                        try:
+                            spec.outputs(e, spec.query(numpy.random.RandomState(9), sets[cur]))
+                        except Exception:
+                            if "F" not in hist:
+                                raise
+                    elif h == "F":
+                        cur = "A"
+                        try:
+                            numpy.random.seed(sub + 17)
+                            spec.fit(e, _copy(F[1]))
+                        except Exception:
+                            ctx.hit("refit.after_failed_fit")
                     else:
                         cur = h
                         numpy.random.seed(sub + 17)
@@ -225,6 +266,60 @@ def run_case(case, ctx):
                     ctx.violation(K + "refit/state-differs/stale-attribute-after-set_params",
                                   "after fit A, set_params(%s=...), fit B the object still carries %s" % (
                                       key, "; ".join(stale[:2])), cfg=cfg)
+        # ---- the same two histories with DataFrames whose column names differ between A and B: what scikit-learn
+        # records about the columns (feature_names_in_, n_features_in_) is fitted state as well
+        fr = _frames(spec, A, B)
+        for key in ([None] + [keys[(sub + j) % len(keys)] for j in range(min(2, len(keys)))]) if fr else ():
+            Af, Bf = fr
+            cfg = {"class": spec.name, "variant": vi, "container": "DataFrame", "sub": sub,
+                   "history": "A,B" if key is None else "A,set_params(%s),B" % key}
+            try:
+                e, fresh = spec.make(vi), spec.make(vi)
+                if key is not None:
+                    if key not in e.get_params(deep=True):
+                        continue
+                    val, ok = alt_value(spec, key, e.get_params(deep=True)[key], None, e)
+                    val2, _ = alt_value(spec, key, e.get_params(deep=True)[key], None, fresh)
+                    if not ok:
+                        continue
+                    fresh.set_params(**{key: val2})
+                numpy.random.seed(sub + 17)
+                spec.fit(fresh, _copy(Bf))
+                Qf = _fquery(spec, Bf)
+                of = spec.outputs(fresh, Qf)
+                probe = spec.make(vi)
+                numpy.random.seed(sub + 17)
+                spec.fit(probe, _copy(Af))
+                spec.outputs(probe, _fquery(spec, Af))
+            except Exception:
+                ctx.excluded("frame history: this configuration cannot be fitted on / queried with a DataFrame")
+                continue
+            try:
+                numpy.random.seed(sub + 17)
+                spec.fit(e, _copy(Af))
+                spec.outputs(e, _fquery(spec, Af))
+                if key is not None:
+                    e.set_params(**{key: val})
+                numpy.random.seed(sub + 17)
+                spec.fit(e, _copy(Bf))
+                og = spec.outputs(e, Qf)
+            except Exception as ex:
+                ctx.hit("refit.frames")
+                ctx.violation(K + "refit/raised/%s/frames%s" % (type(ex).__name__, "/after-set_params" if key else ""),
+                              "DataFrames, history %s raised %s: %s (a fresh instance fits and answers)" % (
+                                  cfg["history"], type(ex).__name__, str(ex)[:120]), cfg=cfg)
+                continue
+            ctx.hit("refit.frames")
+            bad = [m for m in of if m not in og or not same_out(of[m], og[m])]
+            if bad:
+                ctx.violation(K + "refit/outputs-differ-from-fresh-fit/frames", "DataFrames, history %s: %s differs from a "
+                              "fresh instance fitted on B" % (cfg["history"], bad[0]), cfg=cfg)
+                continue
+            d = [x for x in state_diff(state(e), state(fresh)) if "stale attribute" in x
+                 and not x.split(" ")[0].rsplit(".", 1)[-1].startswith("_")]
+            if d:
+                ctx.violation(K + "refit/state-differs/stale-attribute/frames", "DataFrames, history %s: the object still "
+                              "carries %s" % (cfg["history"], "; ".join(d[:2])), cfg=cfg)
         # ---- determinism under the same global seed
         cfg = {"class": spec.name, "variant": vi, "sub": sub}
         try:
@@ -285,6 +380,24 @@ def run_case(case, ctx):
                         break
     ctx.cls("class=" + spec.name)
     ctx.sample({"class": spec.name, "sub": sub})
+
+
+def _frames(spec, A, B):
+    import pandas
+    if spec.kind != "xy" or not all(isinstance(D["X"], numpy.ndarray) and D["X"].ndim == 2 for D in (A, B)):
+        return None
+
+    def wrap(D, pre):
+        return dict(D, X=pandas.DataFrame(D["X"], columns=["%s%d" % (pre, j) for j in range(D["X"].shape[1])]))
+    return wrap(A, "a"), wrap(B, "b")
+
+
+def _fquery(spec, D):
+    import pandas
+    Q = spec.query(numpy.random.RandomState(9), dict(D, X=D["X"].to_numpy()))
+    if isinstance(Q, numpy.ndarray) and Q.ndim == 2 and Q.shape[1] == D["X"].shape[1]:
+        return pandas.DataFrame(Q, columns=D["X"].columns)
+    return Q
 
 
 def _copy(D):
